@@ -862,7 +862,8 @@ func c03Wide(args []string) error {
 		w := lwidths[i%len(lwidths)]
 		signed := (i/len(lwidths))%2 == 0
 		T := typeName(signed, w)
-		opn, sym := [][2]string{{"mul", "*"}, {"mul", "*"}, {"add", "+"}, {"sub", "-"}, {"band", "&"}}[(i/2)%5][0], [][2]string{{"mul", "*"}, {"mul", "*"}, {"add", "+"}, {"sub", "-"}, {"band", "&"}}[(i/2)%5][1]
+		opsL := [][2]string{{"mul", "*"}, {"mul", "*"}, {"add", "+"}, {"sub", "-"}, {"band", "&"}, {"div", "/"}, {"div", "/"}}
+		opn, sym := opsL[(i/2)%len(opsL)][0], opsL[(i/2)%len(opsL)][1]
 		var k *big.Int
 		var lit string
 		top := new(big.Int).Lsh(big.NewInt(1), uint(w-1))
@@ -874,6 +875,16 @@ func c03Wide(args []string) error {
 			lit = "0x" + k.Text(16)
 		}
 		src := fmt.Sprintf("package main\n\nfunc main(a, b %s) %s {\n\treturn a %s %s\n}\n", T, T, sym, lit)
+		if opn == "div" {
+			// a divisor known at compile time (powers of two invite strength reduction): quotient and remainder
+			k = []*big.Int{big.NewInt(2), big.NewInt(4), big.NewInt(8), big.NewInt(1 << 20), big.NewInt(3), big.NewInt(7)}[rng.Intn(6)]
+			lit = k.String()
+			opn = "udiv"
+			if signed {
+				opn = "idiv"
+			}
+			src = fmt.Sprintf("package main\n\nfunc main(a, b %s) (%s, %s) {\n\treturn a / %s, a %% %s\n}\n", T, T, T, lit, lit)
+		}
 		res := &Result{Case: n + i, Nontrivial: true, Class: "wide-literal:" + opn}
 		c, err := compileMPCL(src, nil)
 		if err != nil {
@@ -899,8 +910,12 @@ func c03Wide(args []string) error {
 			} else if k.BitLen() == w {
 				lc = "top"
 			}
+			rem := []int{0}
+			if opn == "udiv" || opn == "idiv" {
+				rem = limbs(got[1], w)
+			}
 			tr.put(map[string]interface{}{"ev": "op", "op": opn, "target": "mpcl-literal", "lit": lc, "wx": w, "wy": w, "wz": w,
-				"x": limbs(x, w), "y": limbs(y, w), "z": limbs(got[0], w), "r": []int{0}})
+				"x": limbs(x, w), "y": limbs(y, w), "z": limbs(got[0], w), "r": rem})
 		}
 		out.put(res)
 	}
